@@ -14,7 +14,8 @@ BOUNDS = {
     "thorough": "1..4 topologies, width 1..4, lo in 0..3 (k<=7)",
 }
 OUTSIDE = "degrees above 7, more than 4 topologies; floating-point rounding"
-ASSUMPTIONS = ["the degree range is read as [lo,hi) or [lo,hi] (both accepted)", "fp(k)>0 and p_i in (0,1]",
+ASSUMPTIONS = ["the degree range is read as [lo,hi) or [lo,hi] (both accepted, but it must be the same reading whatever the target)",
+               "fp(k)>0; p_i symbolic in (0,1] or exactly 0 for topologies other than the first",
                "oracle: splits of k enumerated independently as solutions of sum (i+1)*jd_i = k"]
 EXPECTED_LABELS = ["support", "overall-law", "within-degree-split", "sums-to-one"]
 VALIDATE_EVERY = 10
@@ -28,6 +29,11 @@ def configs(tier):
             for via in (("direct", "enum") if T == 2 else ("direct",)):
                 cfgs.append({"name": f"{kind}-T{T}-{via}", "kind": kind, "T": T, "W": 3 if q else 4, "LO": 2 if q else 3, "via": via})
     cfgs.append({"name": "split-T2-str", "kind": "split", "T": 2, "W": 2, "LO": 1, "via": "str"})
+    # probability vectors with entries that are exactly 0 (that topology is never used)
+    for kind in ("split", "delta"):
+        cfgs.append({"name": f"{kind}-T2-zero1", "kind": kind, "T": 2, "W": 3, "LO": 2, "via": "direct", "zeros": [1]})
+        cfgs.append({"name": f"{kind}-T3-zero1", "kind": kind, "T": 3, "W": 3 if q else 4, "LO": 2, "via": "direct", "zeros": [1]})
+        cfgs.append({"name": f"{kind}-T3-zero12", "kind": kind, "T": 3, "W": 3, "LO": 2, "via": "direct", "zeros": [1, 2]})
     return cfgs
 
 
@@ -45,7 +51,8 @@ def path(ctx, cfg):
     T, kind, via = cfg["T"], cfg["kind"], cfg["via"]
     lo = ctx.fork_int(ctx.int("lo", 0, cfg["LO"]))
     hi = ctx.fork_int(ctx.int("hi", lo + 1, lo + cfg["W"]))
-    probs = [ctx.real(f"p{i}", 0, 1, lo_strict=True) for i in range(T)]
+    zeros = cfg.get("zeros", [])
+    probs = [0.0 if i in zeros else ctx.real(f"p{i}", 0, 1, lo_strict=True) for i in range(T)]
     ftab = {}
 
     def fp(k):
@@ -82,6 +89,14 @@ def path(ctx, cfg):
                 twin=(ks_seen == list(range(lo, hi + 2))), sig="support")
     if rng is None:
         return
+    # both readings of the range are accepted, but it must be ONE reading: the same bounds given to a delta loader whose target is far
+    # outside the range must show the same set of degrees
+    ref_params = dict(params)
+    ref_params[JN.TARGET_K] = hi + 50
+    ref = ctx.guard("loader-raised", JointDegreeDelta, ref_params)
+    ref_ks = sorted({deg(jd) for jd in ref.jdd})
+    ctx.require(ref_ks == ks_seen, "support", f"{desc}: degrees present {ks_seen}, but the same bounds with a far-away target give {ref_ks}",
+                sig="support-range-depends-on-target")
     want_keys = set()
     for k in rng:
         if kind == "split" or k == target:
@@ -91,6 +106,10 @@ def path(ctx, cfg):
     ctx.require(set(jdd) == want_keys, "support", f"{desc}: keys {sorted(jdd)} expected {sorted(want_keys)}", sig="support-keys")
     if set(jdd) != want_keys:
         return
+    if zeros:
+        dead = [jd for jd in want_keys if any(jd[i] > 0 for i in zeros) and (kind == "split" or deg(jd) == target)]
+        ctx.require(all_(eq(jdd[jd], 0) for jd in dead), "within-degree-split", f"{desc} probs zero at {zeros}: splits using a zero-probability topology carry mass",
+                    twin=all_(eq(jdd[jd], 1) for jd in dead) if dead else None, sig="zero-probability-topology-used")
     F = 0
     for k in rng:
         F = F + fp(k)
